@@ -506,6 +506,16 @@ fn oracle_c02(rep: &mut Report, c: &EmitCase, em: &Emitted) {
             }
         }
     }
+    // every adapter a field names (`with = "crate::serde::<m>"`) is a module of src/serde.rs
+    let re = regex::Regex::new(r"crate::serde::([a-z0-9_]+)").unwrap();
+    let defined: BTreeSet<String> = em.tree.get("src/serde.rs").and_then(|b| syn::parse_file(&String::from_utf8_lossy(b)).ok())
+        .map(|f| f.items.iter().filter_map(|i| if let syn::Item::Mod(m) = i { Some(m.ident.to_string()) } else { None }).collect()).unwrap_or_default();
+    for (p, b) in &em.tree {
+        if !p.starts_with("src/") || p == "src/serde.rs" { continue; }
+        for cap in re.captures_iter(&String::from_utf8_lossy(b)) {
+            if !defined.contains(&cap[1]) { rep.oracle_fail("adapterPathUnresolved", vec![], &case, &format!("{p} names crate::serde::{} but src/serde.rs defines {:?}", &cap[1], defined)); }
+        }
+    }
     rep.bump("c02_module_trees_checked");
 }
 
